@@ -35,7 +35,7 @@ type c07Layers struct {
 
 func init() {
 	register(&Prop{ID: "C07", Run: c07Run,
-		Rule: "pairs of root containers over path-safe keys (two key pools, one with keys such as a / a-b / aB / a_ whose paths interleave with a. and a[ in byte order): R is L after 0-4 random local edits (key added/removed, leaf changed, kind changed, list edited), or an independent document, or a copy; overlay cases hold 0-3 named layers per side; domdiff cases go through the pipeline template engine. A pair is non-trivial when Diff(L,R) is non-empty or both documents have more than one node; distinct = distinct canonical case JSON (hash).",
+		Rule: "pairs of root containers over path-safe keys (two key pools, one with keys such as a / a-b / aB / a_ whose paths interleave with a. and a[ in byte order): R is L after 0-4 random local edits (key added/removed, leaf changed, kind changed, list edited), or an independent document, or a copy, or a copy differing in exactly one scalar by a confusable pair (same number under another Go type, neighbouring integers beyond 2^53, a value and its printed text); overlay cases hold 0-3 named layers per side; domdiff cases go through the pipeline template engine. A pair is non-trivial when Diff(L,R) is non-empty or both documents have more than one node; distinct = distinct canonical case JSON (hash).",
 		Assumptions: []string{"scalars are NaN-free and -0-free, so cmp.Equal on leaves coincides with equality of (Go type, fmt.Sprint) pairs",
 			"keys are non-empty over [A-Za-z0-9_-] (path-safe); Lean's String order (code points) equals Go's byte order on these ASCII paths",
 			"the statement's 'Delete immediately followed by Adds' is read as the quantifier text spells it out: the sequence is sorted by path and, among equal paths, the Delete precedes the Add; with a sibling key such as a-b or aB the block Delete a / Add a[0] is not contiguous after sorting (Delete a, Add a-b, Add a[0])"}})
@@ -81,6 +81,18 @@ func c07Run(c *Ctx) {
 	for i := 0; i < c.N(4000); i++ {
 		c.Tick()
 		c.Do("pair", c07GenPair(r))
+	}
+	for i := 0; i < c.N(800); i++ {
+		// the two documents differ in exactly one scalar, and only by a confusable pair (same number under another Go
+		// type, neighbouring integers beyond 2^53, a value and its printed text): a Change (under a key) or the
+		// Delete + Adds block (inside a list) must be reported all the same
+		c.Tick()
+		g := c07Gen(r)
+		g.PList += 0.2
+		if l, rr, ok := withTwins(r, g.Doc(r)); ok {
+			c.Dist("pair:one-confusable-scalar")
+			c.Do("pair", c07Pair{l, rr})
+		}
 	}
 	names := []string{"base", "dev", "prod"}
 	for i := 0; i < c.N(500); i++ {
